@@ -188,7 +188,7 @@ DOMNode *DOMAttrMapImpl::setNamedItem(DOMNode *arg)
         }
         fNodes->insertElementAt(arg,i);
     }
-    if (previous != 0) {
+    if (previous != 0 && previous != arg) {   // replacing a node by itself has no effect
         castToNodeImpl(previous)->fOwnerNode = doc;
         castToNodeImpl(previous)->isOwned(false);
     }
